@@ -273,7 +273,7 @@ def assignAddrs : List Stmt → Nat → Outcome (List Stmt)
       match numV a with
       | .ok v => (match assignAddrs rest (a + s.pkg.size) with
                   | .ok r => .ok ({ s with pkg := { s.pkg with address := v } } :: r) | o => o)
-      | .error _ => .internal                                 -- address above 65535: ValueTypeError escapes
+      | .error _ => .diag                                     -- address above 65535: "outside the 64K address space" (after the repair)
     else
       match s.pkg.address.int? with
       | some a' => (match assignAddrs rest (a' + s.pkg.size) with | .ok r => .ok (s :: r) | o => o)
@@ -312,13 +312,13 @@ def fixOne (ss : List Stmt) (i : Nat) (s : Stmt) : Outcome Stmt :=
       let hint := if short then 2 else 4
       if b ≤ i then
         let len := 1 + sumSize ss b (i + 1)
-        if short ∧ len > 129 then .diag
+        if (short ∧ len > 129) ∨ len > 0x10000 then .diag
         else match numericOfInt ((if short then (0x101 : Int) else 0x10001) - len) (some hint) .none with
           | .ok v => .ok { s with pkg := { s.pkg with additional := v } }
           | .error _ => .internal
       else
         let len := sumSize ss (i + 1) b
-        if short ∧ len > 127 then .diag
+        if (short ∧ len > 127) ∨ len > 0xFFFF then .diag
         else match numericOfInt len (some hint) .none with
           | .ok v => .ok { s with pkg := { s.pkg with additional := v } }
           | .error _ => .internal
